@@ -111,7 +111,7 @@ class Prop:
     id = "C31"
     level = "exploration"
     engine = "TH (controlled threads: baton passing, line-level pre-emption points, simulated locks/conditions/clock)"
-    quick_runs = 30000
+    quick_runs = 20000
     thorough_runs = 300000
     chunk = 100
     time_unit = "simulated seconds (clock jumps to the next timer when nothing is runnable)"
